@@ -44,6 +44,8 @@ type wcall struct {
 	returned    bool
 	cancelled   bool // the actor's context was cancelled / expired
 	expectReject string // "" | "toolarge" | "topic"
+	deadline     time.Duration // simulated instant at which the call's context ends (0 = none)
+	afterClose   bool          // invoked after Writer.Close had returned
 }
 
 type recBalancer struct {
@@ -92,6 +94,8 @@ type writerState struct {
 	timingFaults bool
 	closeInvoked int
 	closeReturned int
+	closeInvokedAt, closeReturnedAt time.Duration
+	raceClose bool
 	seenReq int
 	// per (topic,partition): applied request indexes in log order
 }
@@ -265,10 +269,22 @@ func (st *writerState) finalChecks() {
 		}
 		var werrs kafka.WriteErrors
 		isW := errors.As(c.err, &werrs)
+		if c.afterClose && !errors.Is(c.err, io.ErrClosedPipe) && c.expectReject == "" {
+			s.Fail("C09", "R3-write-after-close", "WriteMessages invoked after Close returned gave %v, want io.ErrClosedPipe", c.err)
+		}
+		if c.cancelled && c.deadline > 0 && c.retAt > c.deadline+time.Millisecond {
+			s.Fail("C09", "R4-ctx-late", "WriteMessages a%d/c%d returned the context error at %v, %v after its context ended (%v)", c.actor, c.call, c.retAt, c.retAt-c.deadline, c.deadline)
+		}
+		if c.deadline > 0 && c.returned && c.err == nil && !st.async && c.retAt > c.deadline+time.Millisecond {
+			// returned success after the deadline: allowed (the batch completed), nothing to check
+		}
 		switch {
 		case c.expectReject != "":
 			if c.err == nil || isW {
 				s.Fail("C08", "R4-not-rejected", "call a%d/c%d (%s) returned %v, want a rejection", c.actor, c.call, c.expectReject, c.err)
+			}
+			if errors.Is(c.err, io.ErrClosedPipe) && st.closeInvoked != 0 && c.ret >= st.closeInvoked {
+				break // the writer was closed: that check comes first
 			}
 			if c.expectReject == "toolarge" && !errors.Is(c.err, kafka.MessageSizeTooLarge) {
 				s.Fail("C08", "R4-wrong-error", "call a%d/c%d with an oversized message returned %v", c.actor, c.call, c.err)
@@ -452,6 +468,7 @@ func writerScenario(s *Sim, params map[string]string) {
 	}
 
 	st := &writerState{s: s, cl: cl, byID: map[string]*wmsg{}}
+	st.raceClose = params["close"] == "race"
 	// faults
 	fmode := t.Intn("cfg", 6)
 	if v, ok := params["faults"]; ok {
@@ -628,11 +645,14 @@ func writerScenario(s *Sim, params map[string]string) {
 				c.expectReject = reject
 				ctx := context.Background()
 				var cancel context.CancelFunc
-				if t.Intn("work", 8) == 0 {
-					ctx, cancel = context.WithTimeout(ctx, time.Duration(t.Range("work", 1, 400))*time.Millisecond)
+				if t.Intn("work", 8) == 0 || (st.raceClose && t.Intn("work", 3) == 0) {
+					d := time.Duration(t.Range("work", 1, 400)) * time.Millisecond
+					ctx, cancel = context.WithTimeout(ctx, d)
+					c.deadline = s.Now() + d
 				}
 				st.calls = append(st.calls, c)
 				c.invoke = s.Step
+				c.afterClose = st.closeReturned > 0
 				err := w.WriteMessages(ctx, msgs...)
 				c.ret, c.retAt, c.err, c.returned = s.Step, s.Now(), err, true
 				if cancel != nil {
@@ -651,18 +671,37 @@ func writerScenario(s *Sim, params map[string]string) {
 	}
 	closing := false
 	closed := false
+	census := false
+	doClose := func() {
+		st.closeInvoked, st.closeInvokedAt = s.Step, s.Now()
+		w.Close()
+		st.closeReturned, st.closeReturnedAt = s.Step, s.Now()
+		tr.CloseIdleConnections()
+		closed = true
+	}
+	if st.raceClose {
+		closing = true
+		at := time.Duration(t.Range("work", 0, 3000)) * time.Millisecond
+		s.After(at, "close-writer", func() { s.Go("closer", doClose) })
+	}
 	s.DoneWhen(func() bool {
 		if s.Actors() > 0 {
 			return false
 		}
 		if !closing {
 			closing = true
-			s.Go("closer", func() {
-				st.closeInvoked = s.Step
-				w.Close()
-				st.closeReturned = s.Step
-				tr.CloseIdleConnections()
-				closed = true
+			s.Go("closer", doClose)
+			return false
+		}
+		if closed && !census {
+			census = true
+			// R6: after Close plus the network time-outs nothing the Writer or its
+			// Transport started is left running
+			s.Go("census", func() {
+				s.Sleep(tr.DialTimeout + tr.IdleTimeout + st.writeTimeout + 5*time.Second)
+				if leak := libraryGoroutines(); leak != "" {
+					s.Fail("C09", "R6-goroutine-leak", "goroutines with kafka-go frames remain %v after Writer.Close and Transport.CloseIdleConnections: %s", s.Now()-st.closeReturnedAt, leak)
+				}
 			})
 			return false
 		}
@@ -671,8 +710,8 @@ func writerScenario(s *Sim, params map[string]string) {
 	s.AtEnd(func() {
 		if s.Ended != "done" {
 			s.Count("ended:" + s.Ended)
-			if s.Ended == "simtime" || s.Ended == "steps" {
-				// budget exhausted: no verdict on liveness here (C09 owns it), safety checks still apply
+			if st.closeInvoked != 0 && st.closeReturned == 0 {
+				s.Fail("C09", "R1-close-hung", "Writer.Close invoked at %v had not returned when the run ended (%s at %v); goroutines: %s", st.closeInvokedAt, s.Ended, s.Now(), StuckReport(30))
 			}
 		}
 		st.finalChecks()
